@@ -1,0 +1,70 @@
+// Copyright © 2024 Attestant Limited.
+// Licensed under the Apache License, Version 2.0 (the "License");
+// you may not use this file except in compliance with the License.
+// You may obtain a copy of the License at
+//
+//     http://www.apache.org/licenses/LICENSE-2.0
+//
+// Unless required by applicable law or agreed to in writing, software
+// distributed under the License is distributed on an "AS IS" BASIS,
+// WITHOUT WARRANTIES OR CONDITIONS OF ANY KIND, either express or implied.
+// See the License for the specific language governing permissions and
+// limitations under the License.
+
+//go:build verif
+
+package dirk
+
+import (
+	"context"
+
+	"github.com/attestantio/go-eth2-client/spec/phase0"
+	"github.com/attestantio/vouch/services/chaintime"
+	nullmetrics "github.com/attestantio/vouch/services/metrics/null"
+	"github.com/attestantio/vouch/services/validatorsmanager"
+	"github.com/rs/zerolog"
+	zerologger "github.com/rs/zerolog/log"
+	e2wtypes "github.com/wealdtech/go-eth2-wallet-types/v2"
+)
+
+// NewForVerifC13 builds the service as New does after parameter parsing, without TLS credentials
+// and endpoints: the wallets are injected, so that openWallet finds them and never calls dirk.Open.
+// Like New it ends with the initial Refresh.
+func NewForVerifC13(ctx context.Context,
+	logLevel zerolog.Level,
+	wallets map[string]e2wtypes.Wallet,
+	accountPaths []string,
+	processConcurrency int64,
+	validatorsManager validatorsmanager.Service,
+	farFutureEpoch phase0.Epoch,
+	currentEpochProvider chaintime.Service,
+) *Service {
+	log := zerologger.With().Str("service", "accountmanager").Str("impl", "dirk").Logger().Level(logLevel)
+	s := &Service{
+		log:                  log,
+		monitor:              nullmetrics.New(),
+		clientMonitor:        nullmetrics.New(),
+		processConcurrency:   processConcurrency,
+		accountPaths:         accountPaths,
+		validatorsManager:    validatorsManager,
+		farFutureEpoch:       farFutureEpoch,
+		currentEpochProvider: currentEpochProvider,
+		wallets:              wallets,
+	}
+	s.Refresh(ctx)
+
+	return s
+}
+
+// VerificationRegexStringsForVerifC13 exposes the texts of the regular expressions built from the
+// account paths, per wallet key.
+func (s *Service) VerificationRegexStringsForVerifC13(paths []string) map[string][]string {
+	res := make(map[string][]string)
+	for wallet, regexes := range s.accountPathsToVerificationRegexes(paths) {
+		for _, regex := range regexes {
+			res[wallet] = append(res[wallet], regex.String())
+		}
+	}
+
+	return res
+}
